@@ -105,3 +105,15 @@ package engine
 //@     set took = true
 //@   call (*LogWriter).Write
 //@     requires took && l.partitionNum > 0 ==> recv == l.logWriter[q % l.partitionNum]
+
+// Recovery replays the files of a log partition oldest first. Files are named <seq>.wal with a decimal
+// sequence number, so "newer" is: longer name, or same length and lexicographically greater (10.wal is newer
+// than 9.wal). The comparator used to sort the directory listing from new to old must be exactly that order.
+//@ spec func fname(e Iface) string
+//@ func (*WAL).restoreLog$1
+//@   requires 0 <= i && i < len(dirs) && 0 <= j && j < len(dirs)
+//@   call .Name
+//@     assume ret0 == fname(recv)
+//@     frame nothing
+//@   ensures [newer_first] result == (len(fname(dirs[i])) > len(fname(dirs[j])) || (len(fname(dirs[i])) == len(fname(dirs[j])) && fname(dirs[i]) > fname(dirs[j])))
+
